@@ -45,46 +45,50 @@ structure CallResult (α ρ : Type) where
   shared : Shared α ρ
   log : List (LogEntry α)
   out : CallOutcome ρ
-  /-- the default body ran through `AsRef<DefaultImplDelegator>` (helper clone created if absent) -/
-  usedHelper : Bool := false
+  /-- Deepest helper level that had to exist: a default body called on the instance at helper
+      level `l` (0 = the instance itself) runs on the `DefaultImplDelegator` stored in that
+      instance's cell, i.e. on helper level `l+1`, which is created on first use. -/
+  helperDepth : Nat := 0
 
 mutual
-/-- one call of a generated trait method on an instance sharing `s` -/
-def callMethod {α ρ} (env : Env α ρ) : Nat → Shared α ρ → MethodInfo → α → CallResult α ρ
-  | 0, s, _, _ => ⟨s, [], .outOfFuel, false⟩
-  | fuel+1, s, m, a =>
+/-- one call of a generated trait method on an instance (helper level `lvl`) sharing `s` -/
+def callMethod {α ρ} (env : Env α ρ) : Nat → Nat → Shared α ρ → MethodInfo → α → CallResult α ρ
+  | 0, _, s, _, _ => ⟨s, [], .outOfFuel, 0⟩
+  | fuel+1, lvl, s, m, a =>
     match call s m a with
-    | (s, .ret v) => ⟨s, [], .ret v, false⟩
-    | (s, .err e) => ⟨s, [], .mockPanic e, false⟩
-    | (s, .userPanic) => ⟨s, [], .userPanic, false⟩
+    | (s, .ret v) => ⟨s, [], .ret v, 0⟩
+    | (s, .err e) => ⟨s, [], .mockPanic e, 0⟩
+    | (s, .userPanic) => ⟨s, [], .userPanic, 0⟩
     | (s, .contAnswer f) =>
-      runProg env fuel s (env.answer f m a)
+      -- the answer function receives the instance it was called on
+      runProg env fuel lvl s (env.answer f m a)
     | (s, .contUnmock) =>
       if m.unmockFn then
-        runProg env fuel s (env.real m a)
-      else ⟨s.induce (.cannotUnmock m), [], .mockPanic (.cannotUnmock m), false⟩
+        runProg env fuel lvl s (env.real m a)
+      else ⟨s.induce (.cannotUnmock m), [], .mockPanic (.cannotUnmock m), 0⟩
     | (s, .contDefault) =>
       if m.hasDefaultImpl then
-        let r := runProg env fuel s (env.dflt m a)
-        { r with usedHelper := true }
-      else ⟨s.induce (.noDefaultImpl m), [], .mockPanic (.noDefaultImpl m), false⟩
+        -- the default body runs on the delegator: nested calls happen one helper level down
+        let r := runProg env fuel (lvl + 1) s (env.dflt m a)
+        { r with helperDepth := max (lvl + 1) r.helperDepth }
+      else ⟨s.induce (.noDefaultImpl m), [], .mockPanic (.noDefaultImpl m), 0⟩
 
 /-- run user code; nested calls hit the same shared state -/
-def runProg {α ρ} (env : Env α ρ) : Nat → Shared α ρ → Prog α ρ → CallResult α ρ
-  | _, s, .done none => ⟨s, [], .userPanic, false⟩
-  | _, s, .done (some v) => ⟨s, [], .ret v, false⟩
-  | 0, s, .call _ _ _ => ⟨s, [], .outOfFuel, false⟩
-  | 0, s, .log _ _ => ⟨s, [], .outOfFuel, false⟩
-  | fuel+1, s, .log e k =>
-    let r := runProg env fuel s k
+def runProg {α ρ} (env : Env α ρ) : Nat → Nat → Shared α ρ → Prog α ρ → CallResult α ρ
+  | _, _, s, .done none => ⟨s, [], .userPanic, 0⟩
+  | _, _, s, .done (some v) => ⟨s, [], .ret v, 0⟩
+  | 0, _, s, .call _ _ _ => ⟨s, [], .outOfFuel, 0⟩
+  | 0, _, s, .log _ _ => ⟨s, [], .outOfFuel, 0⟩
+  | fuel+1, lvl, s, .log e k =>
+    let r := runProg env fuel lvl s k
     { r with log := e :: r.log }
-  | fuel+1, s, .call m a k =>
-    let r := callMethod env fuel s m a
+  | fuel+1, lvl, s, .call m a k =>
+    let r := callMethod env fuel lvl s m a
     match r.out with
     | .ret v =>
-      let r2 := runProg env fuel r.shared (k v)
-      { r2 with log := r.log ++ r2.log }
-    | _ => { r with usedHelper := false }
+      let r2 := runProg env fuel lvl r.shared (k v)
+      { r2 with log := r.log ++ r2.log, helperDepth := max r.helperDepth r2.helperDepth }
+    | _ => r
 end
 
 end Unimock
